@@ -21,4 +21,12 @@ def build(ctx):
     units = [u for u in units if u.name in keep]
     for u in units:
         u.replay = None
-    return units + c04.wait_units()
+    wu = c04.wait_units()
+    def budget(ce, u):      # the budget of the verifier's counterexample (harness variable m), clamped to something runnable
+        try:
+            return [str(min(int(str((ce or {}).get('m', '0')).rstrip('ul')), 1000))]
+        except ValueError:
+            return ['0']
+    for u in wu:
+        u.replay = dict(prog='replay/c02_replay.cpp', args=budget, no_rlimit=True)
+    return units + wu
